@@ -35,8 +35,10 @@ def scripts(tier):
         tails += [list(t) for t in itertools.product(REQS[1:], repeat=3)][::3]
     out = [["begin"] + t for t in tails]
     # sessions begun WITH settings (they are written into the scenario objects of that instance)
-    out += [["begin_set", "step", "results"], ["begin_set", "step_set", "step"], ["begin_set", "end", "begin"]]
-    return out
+    out += [["begin_set", "step", "results"], ["begin_set", "step_set", "step"], ["begin_set", "end", "begin"],
+            ["begin_set", "stop"], ["begin_set", "step_set", "stop"]]
+    # starting the instance is a request of the script: an instance may be started after another one was used and stopped
+    return [["start"] + x for x in out]
 
 
 def interleavings(a, b, limit):
@@ -75,6 +77,9 @@ class Server(object):
         return float(self.env.get(name, 2.0 + (sum(map(ord, name)) % 7)))
 
     def do(self, inst, pos, req):
+        if req == "start":
+            self.start(inst)
+            return (200, "started")
         uid = self.ids[inst]
         post = lambda url, body=None: self.c.post(url, data=json.dumps(body), content_type="application/json") if body is not None else self.c.post(url)
         if req == "begin":
@@ -109,15 +114,12 @@ def run_case(sa, sb, merge, mode, env=None):
     """-> (interleaved responses per instance, solo responses per instance)"""
     seqs = [sa, sb]
     srv = Server(mode, env)
-    srv.start(0)
-    srv.start(1)
     inter = {0: [], 1: []}
     for inst, pos in merge:
         inter[inst].append(srv.do(inst, pos, seqs[inst][pos]))
     solo = {}
     for inst in (0, 1):
         s2 = Server(mode, env)
-        s2.start(inst)
         solo[inst] = [s2.do(inst, pos, req) for pos, req in enumerate(seqs[inst])]
     return inter, solo
 
@@ -211,8 +213,8 @@ def canary_shared_model():
         return b
     factory = bad
     try:
-        sa, sb = ["begin", "step_set", "step"], ["begin", "step", "step"]
-        st, info = check_case(sa, sb, [(0, 0), (1, 0), (0, 1), (1, 1), (0, 2), (1, 2)], 10)
+        sa, sb = ["start", "begin", "step_set", "step"], ["start", "begin", "step", "step"]
+        st, info = check_case(sa, sb, [(0, 0), (1, 0), (0, 1), (1, 1), (0, 2), (1, 2), (0, 3), (1, 3)], 10)
     finally:
         factory = orig
     return st == "violated"
@@ -272,7 +274,7 @@ def run(tier):
         env = {k: float(v) for k, v in info.items() if isinstance(v, (Fraction, int, float)) and not isinstance(v, bool)}
         rep.candidate(sig, {"sa": a, "sb": b, "merge": [list(x) for x in m], "env": env}, "scripts %s | %s interleaved %s: %s" % (a, b, m, what))
     rep.assume("two instances; the bptk factory builds a fresh model per instance (as in the repository's server tests)",
-               "interleavings at request granularity (a spread sample of up to %d merges per script pair, scripts of 3-4 requests)" % lim,
+               "interleavings at request granularity (a spread sample of up to %d merges per script pair, always including 'all of one instance, then the other'; scripts of 3-5 requests starting with start-instance)" % lim,
                "instance ids differ between runs and are not compared; timestamps are not part of the compared responses")
     rep.coverage.update({"states": len(tasks), "transitions": max(1, counts["holds"]), "traces_validated_against_impl": len(seen),
                          "samples": samples, "verdicts": counts, "exhaustive": False,
